@@ -31,6 +31,11 @@ func modules() map[string]ModuleCfg {
 			Scope:     []string{"spanner_prober", "spanner_prober/prober"},
 			StrTheory: true,
 		},
+		"enginetest": {
+			Dir:      filepath.Join(verifDir, "selftest", "engine"),
+			Patterns: []string{"."},
+			Scope:    []string{"enginetest"},
+		},
 		"checksum": {
 			Dir:      filepath.Join(repoDir, "e2e-checksum"),
 			Patterns: []string{"."},
@@ -57,6 +62,8 @@ func main() {
 		cmdSweep(os.Args[2:])
 	case "check":
 		os.Exit(cmdCheck(os.Args[2:]))
+	case "selftest":
+		os.Exit(cmdSelftest(os.Args[2:]))
 	default:
 		fmt.Fprintln(os.Stderr, "unknown command", os.Args[1])
 		os.Exit(2)
@@ -97,7 +104,7 @@ func solveAll(obls []*Obligation, outDir string, tmo int, mode string) {
 			o.SMT = o.RawSMT
 			o.File = filepath.Join(outDir, fmt.Sprintf("o%04d.smt2", i))
 			os.WriteFile(o.File, []byte(o.SMT), 0o644)
-			o.Res = solveAdaptive(o.File, o.SMT, tmo*3, mode)
+			o.Res = solveAdaptive(o.File, o.SMT, tmo*6, mode)
 			return
 		}
 		o.SMT = o.c.emit([]string{o.PC}, o.Goal, !o.Cover)
@@ -276,4 +283,68 @@ func workers() int {
 		n = 8
 	}
 	return n
+}
+
+// cmdSelftest runs the conformance suite of the verifier itself (/verif/selftest/engine): every function okX must
+// verify completely, every function badX_<word> must have a failing obligation whose name contains <word>.
+func cmdSelftest(args []string) int {
+	w := loadModule("enginetest", false)
+	if w == nil {
+		fmt.Println("selftest: cannot load the conformance module")
+		return 2
+	}
+	outDir, _ := os.MkdirTemp("", "gocv-selftest")
+	defer os.RemoveAll(outDir)
+	bad := 0
+	n := 0
+	for _, fn := range w.scopeFunctions() {
+		if !w.isStandalone(fn) {
+			continue
+		}
+		name := fn.Name()
+		if (!strings.HasPrefix(name, "ok") && !strings.HasPrefix(name, "bad")) || strings.Contains(name, "$") {
+			continue // closures are covered through the functions that contain them
+		}
+		n++
+		rep := verifyFunction(w, fn)
+		solveAll(rep.Obls, outDir, 20, "first")
+		var failed []string
+		for _, o := range rep.Obls {
+			if !o.ok() {
+				failed = append(failed, o.Name)
+			}
+		}
+		problem := ""
+		if rep.Panic != "" {
+			problem = "engine failure: " + rep.Panic
+		} else if len(rep.SpecErrs) > 0 {
+			problem = "contract does not bind: " + strings.Join(rep.SpecErrs, "; ")
+		} else if strings.HasPrefix(name, "ok") {
+			if len(failed) > 0 {
+				problem = "expected to verify, failed: " + strings.Join(failed, ", ")
+			}
+		} else {
+			word := name[strings.LastIndex(name, "_")+1:]
+			hit := false
+			for _, f := range failed {
+				if strings.Contains(f, word) {
+					hit = true
+				}
+			}
+			if !hit {
+				problem = fmt.Sprintf("expected a failing obligation containing %q, failed: %v", word, failed)
+			}
+		}
+		if problem != "" {
+			bad++
+			fmt.Printf("MISMATCH %s: %s\n", name, problem)
+		} else {
+			fmt.Printf("as expected %s (%d obligations, %d failing)\n", name, len(rep.Obls), len(failed))
+		}
+	}
+	fmt.Printf("selftest: %d cases, %d mismatches\n", n, bad)
+	if bad > 0 || n == 0 {
+		return 1
+	}
+	return 0
 }
